@@ -39,6 +39,8 @@ type bItem struct {
 	id     int  // -1 = absent
 	ext    byte // 'n' none, 'o' non-critical, 'c' critical
 	disc   bool // DiscoverVersionsRequestPayload instead of UnknownPayload
+	pk     byte // payload kind when not disc: 0/'u' UnknownPayload, 'a' Activate, 'q' Query, 'g' Get request payloads (registered typed payloads)
+	idb    []byte // when non-nil: the UniqueBatchItemID bytes (any length, any content); overrides id
 	acts   []bAct
 	out    string // "ok", "e", "x", "P", "p"
 	reason uint32 // for "e" and "P"
@@ -57,14 +59,24 @@ func verStr(v kmip.ProtocolVersion) string {
 	return fmt.Sprintf("%d.%d", v.ProtocolVersionMajor, v.ProtocolVersionMinor)
 }
 
-func (it *bItem) encode() string {
-	id := "-"
-	if it.id >= 0 {
-		id = strconv.Itoa(it.id)
+// idBytes: the UniqueBatchItemID of the request item (nil = absent).
+func (it *bItem) idBytes() []byte {
+	if it.idb != nil {
+		return it.idb
 	}
+	if it.id >= 0 {
+		return binary.BigEndian.AppendUint32(nil, uint32(it.id))
+	}
+	return nil
+}
+
+func (it *bItem) encode() string {
+	id := renderID(it.idBytes())
 	kind := "u"
 	if it.disc {
 		kind = "d"
+	} else if it.pk != 0 {
+		kind = string(it.pk)
 	}
 	acts := "-"
 	if len(it.acts) > 0 {
@@ -85,13 +97,17 @@ func (it *bItem) encode() string {
 }
 
 func (r *bReq) configKey() string {
+	vs, prefix := r.vers, ""
+	if len(vs) == 0 { // executor left at its default: the line carries the set read off the real executor
+		vs, prefix = liveDefaultVersions(), "="
+	}
 	vers := "-"
-	if len(r.vers) > 0 {
-		p := make([]string, len(r.vers))
-		for i, v := range r.vers {
+	if len(vs) > 0 {
+		p := make([]string, len(vs))
+		for i, v := range vs {
 			p[i] = verStr(v)
 		}
-		vers = strings.Join(p, ",")
+		vers = prefix + strings.Join(p, ",")
 	}
 	routes := "-"
 	if len(r.routes) > 0 {
@@ -135,7 +151,7 @@ func parseBReq(s string) (*bReq, error) {
 		return nil, errors.New("bad request: want 6 fields")
 	}
 	r := &bReq{}
-	if f[0] != "-" {
+	if f[0] != "-" && !strings.HasPrefix(f[0], "=") { // "=<list>": default configuration (the list is informative)
 		for _, p := range strings.Split(f[0], ",") {
 			v, err := parseVer(p)
 			if err != nil {
@@ -179,7 +195,14 @@ func parseBReq(s string) (*bReq, error) {
 				return nil, err
 			}
 			it.op = uint32(op)
-			if q[1] != "-" {
+			if strings.HasPrefix(q[1], "x") {
+				if it.idb, err = hexDecodeString(q[1][1:]); err != nil {
+					return nil, errors.New("bad id")
+				}
+				if it.idb == nil {
+					it.idb = []byte{}
+				}
+			} else if q[1] != "-" {
 				if it.id, err = strconv.Atoi(q[1]); err != nil || it.id < 0 {
 					return nil, errors.New("bad id")
 				}
@@ -192,6 +215,8 @@ func parseBReq(s string) (*bReq, error) {
 			case "u":
 			case "d":
 				it.disc = true
+			case "a", "q", "g":
+				it.pk = q[3][0]
 			default:
 				return nil, errors.New("bad kind")
 			}
@@ -235,7 +260,7 @@ func parseBReq(s string) (*bReq, error) {
 func (r *bReq) supported() bool {
 	vs := r.vers
 	if len(vs) == 0 {
-		vs = []kmip.ProtocolVersion{kmip.V1_0, kmip.V1_1, kmip.V1_2, kmip.V1_3, kmip.V1_4}
+		vs = liveDefaultVersions()
 	}
 	for _, v := range vs {
 		if v == r.ver {
@@ -324,9 +349,26 @@ func (s stringerVal) String() string { return s.s }
 
 type scriptHandler struct{}
 
-// payloadIndex returns (item index, request serial) carried by a payload built by bReq.message.
+// payloadReg maps the payload pointers of the requests in flight to (request state, item index): a handler is
+// given the very payload of its request item, so no content needs to be interpreted (and the library is free to
+// validate payload contents). Fallback: (item index, request serial) carried by the payload contents.
+var payloadReg sync.Map // kmip.OperationPayload (pointer) -> payloadRef
+
+type payloadRef struct {
+	st  *reqState
+	idx int
+}
+
 func payloadIndex(pl kmip.OperationPayload) (int, int32) {
 	switch p := pl.(type) {
+	case *payloads.ActivateRequestPayload:
+		return parseIdxSerial(p.UniqueIdentifier)
+	case *payloads.GetRequestPayload:
+		return parseIdxSerial(p.UniqueIdentifier)
+	case *payloads.QueryRequestPayload:
+		if len(p.QueryFunction) == 2 {
+			return int(p.QueryFunction[0]) - 1000, int32(p.QueryFunction[1])
+		}
 	case *kmip.UnknownPayload:
 		if len(p.Fields) == 2 {
 			i, ok1 := p.Fields[0].Value.(int32)
@@ -343,10 +385,25 @@ func payloadIndex(pl kmip.OperationPayload) (int, int32) {
 	return -1, -1
 }
 
+func parseIdxSerial(s string) (int, int32) {
+	var i, ser int
+	if _, err := fmt.Sscanf(s, "item-%d-of-%d", &i, &ser); err == nil {
+		return i, int32(ser)
+	}
+	return -1, -1
+}
+
 func (scriptHandler) HandleOperation(ctx context.Context, pl kmip.OperationPayload) (kmip.OperationPayload, error) {
-	idx, serial := payloadIndex(pl)
-	v, _ := reqRegistry.Load(serial)
-	st, _ := v.(*reqState)
+	var st *reqState
+	idx := -1
+	if ref, ok := payloadReg.Load(pl); ok && pl != nil {
+		st, idx = ref.(payloadRef).st, ref.(payloadRef).idx
+	} else {
+		var serial int32
+		idx, serial = payloadIndex(pl)
+		v, _ := reqRegistry.Load(serial)
+		st, _ = v.(*reqState)
+	}
 	if st == nil {
 		panic("harness: handler invoked with a payload of no known request")
 	}
@@ -466,14 +523,21 @@ func (r *bReq) message(serial int32) *kmip.RequestMessage {
 	for i := range r.items {
 		it := &r.items[i]
 		bi := kmip.RequestBatchItem{Operation: kmip.Operation(it.op)}
-		if it.id >= 0 {
-			bi.UniqueBatchItemID = binary.BigEndian.AppendUint32(nil, uint32(it.id))
+		if b := it.idBytes(); b != nil {
+			bi.UniqueBatchItemID = append([]byte{}, b...)
 		}
-		if it.disc {
+		switch {
+		case it.disc:
 			bi.RequestPayload = &payloads.DiscoverVersionsRequestPayload{
 				ProtocolVersion: []kmip.ProtocolVersion{{ProtocolVersionMajor: int32(1000 + i), ProtocolVersionMinor: serial}},
 			}
-		} else {
+		case it.pk == 'a':
+			bi.RequestPayload = &payloads.ActivateRequestPayload{UniqueIdentifier: fmt.Sprintf("item-%d-of-%d", i, serial)}
+		case it.pk == 'g':
+			bi.RequestPayload = &payloads.GetRequestPayload{UniqueIdentifier: fmt.Sprintf("item-%d-of-%d", i, serial)}
+		case it.pk == 'q':
+			bi.RequestPayload = &payloads.QueryRequestPayload{QueryFunction: []kmip.QueryFunction{kmip.QueryFunction(1000 + i), kmip.QueryFunction(serial)}}
+		default:
 			bi.RequestPayload = kmip.NewUnknownPayload(kmip.Operation(it.op),
 				ttlv.Value{Tag: kmip.TagBatchCount, Value: int32(i)}, ttlv.Value{Tag: kmip.TagBatchCount, Value: serial})
 		}
@@ -496,8 +560,57 @@ func runReal(parent context.Context, r *bReq, sync func()) (*kmip.ResponseMessag
 	defer reqRegistry.Delete(serial)
 	exec := executorFor(r)
 	msg := r.message(serial)
+	for i := range msg.BatchItem {
+		pl := msg.BatchItem[i].RequestPayload
+		payloadReg.Store(pl, payloadRef{st, i})
+		defer payloadReg.Delete(pl)
+	}
 	resp, p := guard("HandleRequest", func() *kmip.ResponseMessage { return exec.HandleRequest(parent, msg) })
 	return resp, st, p
+}
+
+// liveDefaultVersions: the protocol versions an executor supports when nothing is configured, read off the real
+// code: a fresh executor answers an unrouted DiscoverVersions request with an empty version list with its whole
+// supported set (handleDiscover). The request itself must carry a supported version: candidates are tried.
+var (
+	liveDefaultOnce sync.Once
+	liveDefault     []kmip.ProtocolVersion
+)
+
+func liveDefaultVersions() []kmip.ProtocolVersion {
+	liveDefaultOnce.Do(func() {
+		exec := kmipserver.NewBatchExecutor()
+		for major := int32(0); major <= 9 && liveDefault == nil; major++ {
+			for minor := int32(0); minor <= 9 && liveDefault == nil; minor++ {
+				msg := &kmip.RequestMessage{
+					Header: kmip.RequestHeader{ProtocolVersion: kmip.ProtocolVersion{ProtocolVersionMajor: major, ProtocolVersionMinor: minor}, BatchCount: 1},
+					BatchItem: []kmip.RequestBatchItem{{Operation: kmip.OperationDiscoverVersions, RequestPayload: &payloads.DiscoverVersionsRequestPayload{}}},
+				}
+				resp, p := guard("HandleRequest", func() *kmip.ResponseMessage { return exec.HandleRequest(context.Background(), msg) })
+				if p != "" || resp == nil || len(resp.BatchItem) != 1 || resp.BatchItem[0].ResultStatus != kmip.ResultStatusSuccess {
+					continue
+				}
+				switch pl := resp.BatchItem[0].ResponsePayload.(type) {
+				case *payloads.DiscoverVersionsRequestPayload:
+					liveDefault = append([]kmip.ProtocolVersion{}, pl.ProtocolVersion...)
+				case *payloads.DiscoverVersionsResponsePayload:
+					liveDefault = append([]kmip.ProtocolVersion{}, pl.ProtocolVersion...)
+				}
+			}
+		}
+	})
+	return liveDefault
+}
+
+// unsupportedByDefault: a version outside the live default set (beyond its largest major).
+func unsupportedByDefault(k int) kmip.ProtocolVersion {
+	major := int32(1)
+	for _, v := range liveDefaultVersions() {
+		if v.ProtocolVersionMajor >= major {
+			major = v.ProtocolVersionMajor + 1
+		}
+	}
+	return kmip.ProtocolVersion{ProtocolVersionMajor: major, ProtocolVersionMinor: int32(k % 2)}
 }
 
 func renderID(b []byte) string {
@@ -507,7 +620,7 @@ func renderID(b []byte) string {
 	case len(b) == 4:
 		return strconv.FormatUint(uint64(binary.BigEndian.Uint32(b)), 10)
 	}
-	return "?" + hexUp(b)
+	return "x" + hexUp(b)
 }
 
 func renderObs(obs []obsEv) string {
@@ -544,7 +657,7 @@ func renderResp(resp *kmip.ResponseMessage, st *reqState) string {
 			switch bi.ResultStatus {
 			case kmip.ResultStatusSuccess:
 			case kmip.ResultStatusOperationFailed:
-				status = "F" + strconv.FormatUint(uint64(bi.ResultReason), 10)
+				status = "F" // the result reason is not rendered: C09 does not speak about it
 			default:
 				status = "?" + strconv.FormatUint(uint64(bi.ResultStatus), 10)
 			}
@@ -750,7 +863,7 @@ func exhaustBatches(ctx *Ctx, n int, full bool) {
 						}
 						r := &bReq{routes: []uint32{1, 2, 3}, ver: kmip.V1_4, opt: opt, count: int32(n)}
 						if !verOK {
-							r.ver = kmip.ProtocolVersion{ProtocolVersionMajor: 2, ProtocolVersionMinor: int32(n % 2)}
+							r.ver = unsupportedByDefault(n)
 						}
 						if !cntOK {
 							r.count = int32(n + 1 - 2*(n%2)*min(n, 1)) // n+1, or n-1 for odd n
@@ -838,7 +951,17 @@ func randomReq(r *rng.R, n int, base int) *bReq {
 	for i := 0; i < n; i++ {
 		it := bItem{op: rng.Pick(r, ops), id: -1, ext: 'n', out: "ok"}
 		if r.Chance(2, 3) {
-			it.id = r.Intn(1 << 16)
+			switch r.Intn(4) {
+			case 0, 1:
+				it.id = r.Intn(1 << 16)
+			case 2: // any length 0…64 (0 = present but empty: the same as absent on the wire), any bytes
+				it.idb = r.Bytes(rng.Pick(r, []int{0, 1, 2, 3, 4, 5, 7, 8, 9, 15, 16, 17, 31, 32, 33, 63, 64, r.Intn(65)}))
+			default: // leading/trailing zero bytes, non-ASCII, text
+				it.idb = rng.Pick(r, [][]byte{{0}, {0, 0, 0, 0}, {0, 0, 0, 1}, {1, 0, 0, 0, 0}, {0xff, 0xfe}, []byte("item-é-ü-€"), []byte("0"), []byte(" 7 "), {0x80}, {0, 0, 0, 0, 0, 0, 0, 7}})
+			}
+		}
+		if !it.disc && r.Chance(1, 3) {
+			it.pk = rng.Pick(r, []byte{'a', 'q', 'g'})
 		}
 		switch r.Intn(12) {
 		case 0:
@@ -847,7 +970,7 @@ func randomReq(r *rng.R, n int, base int) *bReq {
 			it.ext = 'o'
 		}
 		if it.op == uint32(kmip.OperationDiscoverVersions) && r.Chance(3, 4) || r.Chance(1, 12) {
-			it.disc = true
+			it.disc, it.pk = true, 0
 		}
 		if r.Intn(10) < failRate {
 			switch r.Intn(4) {
